@@ -183,6 +183,13 @@ fn check_accounting(w: &mut World) {
         if si.name == "compressor_space" {
             continue;
         }
+        // MarkCompact truncates its monotone resource at the compaction top.  In a discontiguous
+        // layout the regions before the one holding the top (in list order, not address order)
+        // are then accounted as wholly in use, which is neither expressible as "pages above an
+        // address" nor per grant; only the contiguous case is checked exactly.
+        if si.name == "mc" && !si.contiguous {
+            continue;
+        }
         let granted = per.get(&si.index).cloned().unwrap_or(0);
         if si.committed_pages > (usize::MAX >> 1) || si.reserved_pages > (usize::MAX >> 1) {
             violation(
